@@ -252,5 +252,7 @@ pub fn check_call_type_compact(context: &mut TypeCheckContext, c: &LuaAliasCallT
 
 //@@include c16_laws/union.rs
 
+//@@include c16_laws/subtype.rs
+
 } // verus!
 fn main() {}
